@@ -37,6 +37,9 @@ REGISTRY["C14"] = {
          "shards": {"quick": 4, "thorough": 16}},
         {"name": "TestC14Loop", "mode": "rapid", "checks": {"quick": 300, "thorough": 6000},
          "shards": {"quick": 4, "thorough": 16}},
+        # catch events with a timer AND a signal definition (plain multiple / parallel-multiple) in two instances of one parsed model that share one
+        # timer definition builder, one tracer and one event bus: the C13 two-instance campaign, run here as part of this check
+        {"name": "TestC13TwoInstances", "pkg": "props/c13", "label": "timer-and-signal-two-instances", "checks": {"quick": 150, "thorough": 4000}, "shards": {"quick": 4, "thorough": 8}},
     ],
 }
 
@@ -350,13 +353,14 @@ REGISTRY["C16"] = {
                    "item type incl. unknown ones and nil, WithVariables, DoWithResults (declared field types), DoWithObjects, 1..3 data objects declared in the model with JSON bodies, and olive property/header references "
                    "to present, absent and malformed paths; two instances alive at once. Oracle: an independently written canonicaliser (encoding/json semantics "
                    "inside containers) - read-back value and item type must equal canon(v); nothing panics (a panic in an engine goroutine kills the worker and "
-                   "is recovered from the journal); variables never cross instances."),
+                   "is recovered from the journal); variables never cross instances. TestC16Isolation: 2..5 instances of one document (an exclusive gateway whose flows test v0..v3, expr or XPath) in one program, one after another or alive together, from one parsed model or several, each with its own subset of the variables: every instance must be routed by its own variables only - a variable it does not have cannot make its condition true, whatever the other instances hold."),
     "level_note": "Trusted: the reference canonicaliser in props/c16 (encoding/json), reflect. Typed declarations are only required not to panic (value survival is stated for variables, results and data objects, which use the inferred path). Pointers are single-level; integers inside containers are limited to +-2^53 (JSON numbers).",
     "technique": "rapid property test: round trip against an independent canonicaliser; crash detection through worker journal",
     "rule": ("Distinct = (value spec, declared type | door, reference). Non-trivial = the value is not a plain string/int, or a declared type differs from the dynamic type, or a reference path is absent/malformed."),
     "tests": [
         {"name": "TestC16Value", "checks": {"quick": 6000, "thorough": 400000}, "shards": {"quick": 8, "thorough": 16}},
         {"name": "TestC16Engine", "checks": {"quick": 150, "thorough": 6000}, "shards": {"quick": 8, "thorough": 16}},
+        {"name": "TestC16Isolation", "checks": {"quick": 80, "thorough": 3000}, "shards": {"quick": 4, "thorough": 8}},
         # reading a stored value back on EVERY visit of a task (task inputs after a loop back to the activity): the C08 campaign, run here too
         {"name": "TestC08Histories", "pkg": "props/c08", "label": "read-back-on-every-visit", "checks": {"quick": 150, "thorough": 5000}, "shards": {"quick": 4, "thorough": 8}},
         {"name": "FuzzC16ValueFrom", "mode": "fuzz", "tiers": ["thorough"], "checks": {"thorough": 120}, "shards": {"thorough": 1}, "limit": {"thorough": 900}},
